@@ -33,7 +33,11 @@ type File struct {
 	Desc    string `json:"desc,omitempty"` // WithFileDescription
 	CID     string `json:"cid,omitempty"`  // WithFileContentID
 	CT      string `json:"ct,omitempty"`   // WithFileContentType
-	Source  string `json:"src,omitempty"`  // "" = File struct with Writer; "reader", "readseeker"
+	// Source: "" = File struct with Writer; "reader" / "readseeker" = AttachReader / AttachReadSeeker on a private
+	// *bytes.Reader; "buffer" = AttachReader on ONE *bytes.Buffer shared by all such files of the message, which the
+	// caller refills for the next file and finally overwrites (the library documents that readers are consumed at
+	// the call); memory handed to a consuming API is overwritten by Build before it returns
+	Source string `json:"src,omitempty"`
 }
 
 // Msg is a complete builder program in canonical order.
@@ -212,6 +216,19 @@ func Build(s Msg, h *Hooks) (*mail.Msg, error) {
 			m.GetParts()[i].Delete()
 		}
 	}
+	scratch := &bytes.Buffer{}
+	var scribble [][]byte
+	defer func() {
+		scratch.Reset()
+		for i := 0; i < 64; i++ {
+			scratch.WriteString("~~~~ the caller re-used this buffer for something else ~~~~\r\n")
+		}
+		for _, b := range scribble {
+			for i := range b {
+				b[i] = '#'
+			}
+		}
+	}()
 	mkFiles := func(kind string, fs []File, attach bool) {
 		var structs []*mail.File
 		for i, f := range fs {
@@ -233,11 +250,23 @@ func Build(s Msg, h *Hooks) (*mail.Msg, error) {
 				fo = append(fo, mail.WithFileContentType(mail.ContentType(f.CT)))
 			}
 			switch f.Source {
-			case "reader":
+			case "buffer":
+				scratch.Reset()
+				scratch.Write(f.Content)
 				if attach {
-					note(m.AttachReader(f.Name, bytes.NewReader(f.Content), fo...))
+					note(m.AttachReader(f.Name, scratch, fo...))
 				} else {
-					note(m.EmbedReader(f.Name, bytes.NewReader(f.Content), fo...))
+					note(m.EmbedReader(f.Name, scratch, fo...))
+				}
+				continue
+			case "reader":
+				// the reader is consumed during the call: the caller may recycle the memory behind it afterwards
+				own := append([]byte{}, f.Content...)
+				scribble = append(scribble, own)
+				if attach {
+					note(m.AttachReader(f.Name, bytes.NewReader(own), fo...))
+				} else {
+					note(m.EmbedReader(f.Name, bytes.NewReader(own), fo...))
 				}
 				continue
 			case "readseeker":
@@ -296,10 +325,10 @@ func (s Msg) Describe() string {
 		fmt.Fprintf(&b, " part%d[%s enc=%s len=%d%s]", i, orDefault(p.Type, "text/plain"), orDefault(p.Enc, "-"), len(p.Content), descMark(p.Desc))
 	}
 	for i, f := range s.Embeds {
-		fmt.Fprintf(&b, " embed%d[%q enc=%s len=%d%s]", i, f.Name, orDefault(f.Enc, "-"), len(f.Content), descMark(f.Desc))
+		fmt.Fprintf(&b, " embed%d[%q enc=%s len=%d%s%s]", i, f.Name, orDefault(f.Enc, "-"), len(f.Content), descMark(f.Desc), srcMark(f.Source))
 	}
 	for i, f := range s.Attach {
-		fmt.Fprintf(&b, " attach%d[%q enc=%s len=%d%s]", i, f.Name, orDefault(f.Enc, "-"), len(f.Content), descMark(f.Desc))
+		fmt.Fprintf(&b, " attach%d[%q enc=%s len=%d%s%s]", i, f.Name, orDefault(f.Enc, "-"), len(f.Content), descMark(f.Desc), srcMark(f.Source))
 	}
 	if s.Boundary != "" {
 		fmt.Fprintf(&b, " boundary=%q", s.Boundary)
@@ -311,6 +340,13 @@ func (s Msg) Describe() string {
 		fmt.Fprintf(&b, " recycled-msg=%d", s.Recycle)
 	}
 	return b.String()
+}
+
+func srcMark(s string) string {
+	if s == "" {
+		return ""
+	}
+	return " src=" + s
 }
 
 func orDefault(s, d string) string {
